@@ -838,7 +838,7 @@ def replay(path):
     rep = d.get("replay", {})
     kind = rep.get("kind")
     ctx = core.Ctx("replay", "quick")
-    if kind in ("rogue", "genuine", "rogue-content", "key-release", "refusal"):
+    if kind in ("rogue", "genuine", "rogue-content", "key-release", "refusal", "bad-cert-refusal", "binder-refusal", "quic-bad-cert-split", "quic-binder-refusal"):
         ws = tlsrogue.replay(rep)
     elif kind == "name":
         ca, ca_key = Q.make_ca()
